@@ -302,6 +302,88 @@ def corr_exact(ctx, dec, reqs, pend):
             ctx.count("corr:exact:" + mesh, ["exact", case], n >= 2, sample=case)
 
 
+def corr_absorb(ctx, dec, reqs, pend):
+    """_absorb_zeta with zetas[j] = 2**j and all other phases 0: every update is visible exactly"""
+    fn = getattr(dec, "_absorb_zeta", None)
+    if fn is None:
+        ctx.notes.append("decompositions._absorb_zeta not found: relocation correspondence skipped (oracle still applies)")
+        return
+    for m in range(1, ctx.n(11, 14)):
+        keys = [(mode, layer) for layer in range(m) for mode in range(layer % 2, m - 1, 2)]
+        phases = dict(m=m, phi_ins={j: 0.0 for j in range(0, m - 1, 2)}, deltas={k: 0.0 for k in keys},
+                      sigmas={k: 0.0 for k in keys}, zetas={j: float(2 ** j) for j in range(m)},
+                      phi_outs={m - j - 1: 0.0 for j in range(1, m - 1, 2)})
+        out = fn(phases)
+        impl = dict(sigma={f"{k[0]},{k[1]}": v for k, v in out["sigmas"].items() if v != 0},
+                    edge={f"{k[0]},{k[1]}": v for k, v in out["phi_edges"].items() if v != 0},
+                    out={str(k): v for k, v in out["phi_outs"].items() if v != 0},
+                    keys=sorted(k for k in out if k != "m"))
+        reqs.append(dict(op="dec.absorb", m=m))
+        pend.append(("absorb", dict(m=m), impl))
+        ctx.count("corr:absorb_zeta", ["absorb", m], m >= 3, sample=dict(m=m))
+
+
+def corr_takagi_order(ctx, dec, reqs, pend):
+    """real branch of takagi on diagonal integer matrices: order of the values, which eigenvector goes where, phases"""
+    rng = ctx.rng
+    for _ in range(ctx.n(120, 600)):
+        n = rng.randint(1, 7)
+        pool = list(range(-6, 7))
+        l = sorted(rng.sample(pool, n))                  # distinct eigenvalues, +-pairs and 0 included
+        if l == [0]:
+            continue
+        sigma = list(range(n))
+        rng.shuffle(sigma)
+        N = np.diag([float(l[sigma[r]]) for r in range(n)])
+        rl, U = dec.takagi(N.copy())
+        reqs.append(dict(op="dec.takagiOrder", l=l))
+        pend.append(("takagi_order", dict(l=l, sigma=sigma), dict(rl=np.asarray(rl, dtype=float), U=np.asarray(U), N=N)))
+        ctx.count("corr:takagi_real_order", ["takagi_order", l, sigma], n >= 2 and any(-x in l for x in l if x > 0),
+                  sample=dict(l=l, sigma=sigma))
+
+
+def corr_bmperm(ctx, dec, reqs, pend):
+    """bloch_messiah: the diagonal of the squeezing factor is the decreasingly sorted singular values in the model's order"""
+    rs = ctx.nprng(41)
+    for _ in range(ctx.n(40, 200)):
+        n = int(rs.integers(1, 6))
+        S = D.symplectic_case(rs, n, str(rs.choice(["generic", "pairs", "close_distinct", "one_unsqueezed", "signs"])))
+        ss = np.linalg.svd(S, compute_uv=False)
+        try:
+            st = np.diag(dec.bloch_messiah(S.copy())[1])
+        except Exception:                                       # noqa: BLE001   (reported by the oracle with the input)
+            continue
+        reqs.append(dict(op="dec.bmPerm", n=n))
+        pend.append(("bmperm", dict(n=n, S=D.to_json_matrix(S)), dict(ss=ss, st=np.asarray(st))))
+        ctx.count("corr:bloch_messiah_order", ["bmperm", D.to_json_matrix(S)], n >= 2)
+
+
+def corr_su2(ctx, dec, reqs, pend):
+    """sun_compact on 1 (+) W with W in SU(2) at rational points: the returned (a, b, g) fed to the model's SU(2) block
+    must give W back (documented parametrisation)"""
+    rng = ctx.rng
+    for _ in range(ctx.n(60, 300)):
+        c, s = circle(rng, positive=True)
+        pth, qth = circle(rng), circle(rng)
+        u = fscale(c, pth)
+        v = fscale(s, qth)
+        W = np.array([[fcomplex(u), -fcomplex(fconj(v))], [fcomplex(v), fcomplex(fconj(u))]])
+        U = np.identity(3, dtype=np.complex128)
+        U[1:, 1:] = W
+        try:
+            params, phase = dec.sun_compact(U.copy())
+        except Exception:                                       # noqa: BLE001   (the oracle reports such inputs)
+            continue
+        (m3, (a, b, g)) = params[2]
+        case = dict(c=str(c), s=str(s), p=[str(pth[0]), str(pth[1])], q=[str(qth[0]), str(qth[1])])
+        rest = [list(map(float, p_)) for _, p_ in params[:2]]
+        reqs.append(dict(op="dec.embed", kind="SU2", n=3, p=1, q=2, c=frat(math.cos(b / 2)), s=frat(math.sin(b / 2)),
+                         e=jcx(1), ea=jcx(complex(math.cos(a / 2), math.sin(a / 2))),
+                         eg=jcx(complex(math.cos(g / 2), math.sin(g / 2)))))
+        pend.append(("su2", case, dict(U=U, rest=rest, modes=[int(m3[0]), int(m3[1])], phase=phase)))
+        ctx.count("corr:su2_parameters", ["su2", case], True, sample=case)
+
+
 def compare(ctx, reqs, pend):
     if not ctx.proof_ok or not reqs:
         return
@@ -362,6 +444,53 @@ def compare(ctx, reqs, pend):
         elif kind == "pattern":
             if model.get("lowerDone") is not True:
                 ctx.disagree("Decomp pattern: lower triangle not zero after schedule", case, model, True)
+        elif kind == "absorb":
+            want = dict(sigma={}, edge={}, out={})
+            for slot, mode, layer, plus, j in model:
+                key = f"{mode},{layer}" if slot != "out" else str(mode)
+                if slot == "out":
+                    want["out"][key] = float(2 ** j)
+                else:
+                    want[slot][key] = want[slot].get(key, 0.0) + (1 if plus else -1) * float(2 ** j)
+            want = {k: {kk: v for kk, v in d.items() if v != 0} for k, d in want.items()}
+            got = {k: impl[k] for k in ("sigma", "edge", "out")}
+            if want != got or impl["keys"] != ["deltas", "phi_edges", "phi_ins", "phi_outs", "sigmas"]:
+                ctx.disagree("Decomp.absorbUpdates vs _absorb_zeta", case, want, dict(got, keys=impl["keys"]))
+        elif kind == "takagi_order":
+            l, sigma = case["l"], case["sigma"]
+            order, phsq = model["order"], model["phaseSq"]
+            ok = len(order) == len(l) and np.array_equal(impl["rl"], np.array([float(v) for v, _ in order]))
+            if ok:
+                # columns of equal singular value may come in any order (the model fixes Python's tuple order; a stable
+                # sort by value alone is as good): compare, per value, the set of (row, phase^2) of its columns
+                n = len(l)
+                U2 = impl["U"] ** 2
+                for val in {v for v, _ in order}:
+                    cols = [k for k, (v, _) in enumerate(order) if v == val]
+                    want = sorted((sigma.index(i), phsq[i]) for v, i in order if v == val)
+                    got = []
+                    for k in cols:
+                        nz = [r for r in range(n) if abs(U2[r, k]) > 1e-12]
+                        if len(nz) != 1 or abs(U2[nz[0], k] - round(U2[nz[0], k].real)) > 1e-12:
+                            ok = False
+                            break
+                        got.append((nz[0], int(round(U2[nz[0], k].real))))
+                    ok = ok and sorted(got) == want
+            if not ok:
+                ctx.disagree("Decomp.takagiOrder vs takagi (real branch: values, column order, phases)", case,
+                             model, dict(rl=impl["rl"].tolist(), U2=(impl["U"] ** 2).tolist()))
+        elif kind == "bmperm":
+            want = impl["ss"][np.array(model, dtype=int)]
+            if err(want, impl["st"]) > CTOL * max(1.0, float(np.max(want))):
+                ctx.disagree("Decomp.bmPerm vs bloch_messiah (order of the squeezing diagonal)", case, want.tolist(), impl["st"].tolist())
+        elif kind == "su2":
+            M = mat_of(model)
+            if impl["modes"] != [1, 2] or impl["phase"] is not None or any(abs(x) > 1e-12 for r in impl["rest"] for x in r):
+                ctx.disagree("sun_compact on 1 (+) SU(2): factors other than the last one are not trivial", case, None,
+                             dict(modes=impl["modes"], rest=impl["rest"], phase=impl["phase"]))
+            elif err(M, impl["U"]) > CTOL:
+                ctx.disagree("Decomp.blkSU2(atoms of sun_compact's (a,b,g)) vs the decomposed SU(2) matrix", case,
+                             M.tolist(), impl["U"].tolist())
         elif kind == "exact":
             sched = res[idx + 1]
             if model is None:
@@ -381,33 +510,43 @@ def compare(ctx, reqs, pend):
 # ------------------------------------------------------------------------------------------------
 # (b) certificate oracle
 
-def near_degenerate_gap(A):
-    """input class of the known takagi finding: complex branch, and two consecutive singular values a >= b that are
-    closer than 1e-7*scale while a boundary of np.round(., 13) lies in [b - 1e-14, a + 1e-14] (always the case for
-    a - b >= 1e-13; for closer values only when they sit on a boundary) -- so np.round may split them although the SVD
-    cannot separate their singular vectors.  (Decided with a margin because LAPACK's singular values differ in the
-    last bits between the call with and without vectors.)"""
-    A = np.real_if_close(np.asarray(A))
-    if np.isrealobj(A) or A.shape[0] < 2:
-        return False
-    l = np.linalg.svd(A, compute_uv=False)
-    a, b = l[:-1], l[1:]
-    close = (a - b) <= 1e-7 * max(1.0, l[0])
-    crosses = np.floor((a + 1e-14) * 1e13 - 0.5) != np.floor((b - 1e-14) * 1e13 - 0.5)
-    return bool(np.any(close & crosses))
+PRESENT = dict(mode="plain", modified=None)
+PRESENT_MODES = ["plain", "plain", "plain", "readonly", "fortran", "strided"]
 
 
-def unit_block_multiplicity(S):
-    """number of singular values of S equal to 1 at bloch_messiah's rounding (9 decimals)"""
-    l = np.linalg.svd(np.asarray(S, dtype=float), compute_uv=False)
-    return int(np.sum(np.round(l, 9) == 1.0))
+def present(A):
+    """the array object handed to the code under test: a fresh C array, a read-only one (an in-place write raises),
+    a Fortran-ordered one or a strided view into a larger buffer"""
+    mode = PRESENT["mode"]
+    if mode == "fortran":
+        return np.asfortranarray(A.copy())
+    if mode == "strided" and A.ndim == 2:
+        big = np.zeros((2 * A.shape[0], 2 * A.shape[1]), dtype=A.dtype)
+        big[::2, ::2] = A
+        return big[::2, ::2]
+    B = A.copy()
+    if mode == "readonly":
+        B.flags.writeable = False
+    return B
 
 
-def check_mesh(dec, mesh, U):
+def call(f, A, *args, **kw):
+    """call the real function on a presented copy of A and record whether it changed its input in place"""
+    B = present(A)
+    snap = B.copy()
+    try:
+        return f(B, *args, **kw)
+    finally:
+        if B.shape != snap.shape or not np.array_equal(B, snap, equal_nan=True):
+            PRESENT["modified"] = "the input array was modified in place (max change %.3g)" % (
+                float(np.max(np.abs(B - snap))) if B.shape == snap.shape else float("nan"))
+
+
+def check_mesh(dec, mesh, U, **kw):
     """returns None or (what, detail) for one call of a mesh on a valid unitary"""
     n = U.shape[0]
     try:
-        res = getattr(dec, mesh)(U.copy())
+        res = call(getattr(dec, mesh), U, **kw)
     except Exception as e:                                      # noqa: BLE001
         return "raised", f"{type(e).__name__}: {str(e)[:80]}"
     try:
@@ -442,7 +581,8 @@ def check_mesh(dec, mesh, U):
     except Exception as e:                                      # noqa: BLE001
         return "structure", f"result not of the documented form ({type(e).__name__}: {str(e)[:60]})"
     e = err(q, U)
-    if not e < TOL:
+    # with a caller-supplied tolerance the special cases may neglect what is below it
+    if not e < max(TOL, 10 * max([TOL / 10] + [v for v in kw.values() if isinstance(v, float)])):
         return "reconstruction", f"|product - U| = {e:.3g}"
     return None
 
@@ -450,7 +590,7 @@ def check_mesh(dec, mesh, U):
 def check_takagi(dec, A, **kw):
     n = A.shape[0]
     try:
-        rl, U = dec.takagi(A.copy(), **kw)
+        rl, U = call(dec.takagi, A, **kw)
     except Exception as e:                                      # noqa: BLE001
         return "raised", f"{type(e).__name__}: {str(e)[:80]}"
     rl, U = np.asarray(rl), np.asarray(U)
@@ -463,7 +603,7 @@ def check_takagi(dec, A, **kw):
     if not e2 < TOL:
         return "unitarity", f"|U U^+ - 1| = {e2:.3g}"
     e1 = err(U @ np.diag(rl) @ U.T, A) / sc
-    if not e1 < TOL:
+    if not e1 < TOL + 10.0 ** (-kw.get("rounding", 13)):       # the returned values are rounded to `rounding` decimals
         return "reconstruction", f"|U diag U^T - N| = {e1:.3g} (scale {sc:.3g})"
     return None
 
@@ -471,7 +611,7 @@ def check_takagi(dec, A, **kw):
 def check_williamson(dec, V):
     n = V.shape[0] // 2
     try:
-        Db, S = dec.williamson(V.copy())
+        Db, S = call(dec.williamson, V)
     except Exception as e:                                      # noqa: BLE001
         return "raised", f"{type(e).__name__}: {str(e)[:80]}"
     O = D.sympmat(n)
@@ -495,7 +635,7 @@ def check_williamson(dec, V):
 def check_bloch_messiah(dec, S):
     n = S.shape[0] // 2
     try:
-        O1, Z, O2 = dec.bloch_messiah(S.copy())
+        O1, Z, O2 = call(dec.bloch_messiah, S)
     except Exception as e:                                      # noqa: BLE001
         return "raised", f"{type(e).__name__}: {str(e)[:80]}"
     O = D.sympmat(n)
@@ -525,7 +665,7 @@ def check_bloch_messiah(dec, S):
 def check_graph_embed(dec, A, mp, traceless):
     n = A.shape[0]
     try:
-        vals, U = dec.graph_embed(A.copy(), mean_photon_per_mode=mp, make_traceless=traceless)
+        vals, U = call(dec.graph_embed, A, mean_photon_per_mode=mp, make_traceless=traceless)
     except Exception as e:                                      # noqa: BLE001
         return "raised", f"{type(e).__name__}: {str(e)[:80]}"
     A2 = A - np.trace(A) * np.identity(n) / n if traceless else A
@@ -551,7 +691,7 @@ def check_graph_embed(dec, A, mp, traceless):
 def check_bipartite(dec, A, mp):
     n = A.shape[0]
     try:
-        vals, u, v = dec.bipartite_graph_embed(A.copy(), mean_photon_per_mode=mp)
+        vals, u, v = call(dec.bipartite_graph_embed, A, mean_photon_per_mode=mp)
     except Exception as e:                                      # noqa: BLE001
         return "raised", f"{type(e).__name__}: {str(e)[:80]}"
     vals, u, v = np.asarray(vals), np.asarray(u), np.asarray(v)
@@ -605,10 +745,11 @@ def bipartite_case(rs, n, kind):
 
 def run_one(dec, fn, A, kw):
     """dispatch used by the generator loop and by replay; returns None or (what, detail)"""
+    opts = kw.get("opts") or {}
     if fn in MESHES:
-        return check_mesh(dec, fn, A)
+        return check_mesh(dec, fn, A, **opts)
     if fn == "takagi":
-        return check_takagi(dec, A)
+        return check_takagi(dec, A, **opts)
     if fn == "williamson":
         return check_williamson(dec, A)
     if fn == "bloch_messiah":
@@ -618,53 +759,70 @@ def run_one(dec, fn, A, kw):
     if fn == "bipartite_graph_embed":
         return check_bipartite(dec, A, kw["mp"])
     if fn.startswith("reject:"):
-        return check_reject(dec, fn[7:], A)
+        return check_reject(dec, fn[7:], A, **opts)
+    if fn.startswith("accept:"):
+        return check_accept(dec, fn[7:], A, **opts)
     raise KeyError(fn)
 
 
 def signature(fn, what, A, kw):
-    """stable classifier; the two known findings get a signature only when the INPUT is of the known class"""
-    if fn == "takagi" and what in ("unitarity", "reconstruction") and near_degenerate_gap(A):
-        return "takagi:near-degenerate-singular-values-split-by-rounding"
-    if fn == "graph_embed" and what in ("unitarity", "reconstruction"):
-        from thewalrus.quantum import adj_scaling
-        n = A.shape[0]
-        A2 = A - np.trace(A) * np.identity(n) / n if kw.get("traceless") else A
-        try:
-            if near_degenerate_gap(adj_scaling(A2, n * kw["mp"]) * A2):
-                return "graph_embed:takagi-near-degenerate-singular-values-split-by-rounding"
-        except Exception:                                       # noqa: BLE001
-            pass
-    if fn == "bloch_messiah" and what in ("symplectic", "orthogonal", "diagonal", "reconstruction") \
-            and unit_block_multiplicity(A) >= 4:
-        return "bloch_messiah:two-or-more-unsqueezed-modes"
+    """stable classifier of a failure"""
     return f"{fn}:{what}"
 
 
-def judge(ctx, dec, fn, kind, A, kw=None):
+def judge(ctx, dec, fn, kind, A, kw=None, mode=None):
     kw = kw or {}
-    out = run_one(dec, fn, A, kw)
+    PRESENT["mode"] = mode or ("plain" if fn.startswith(("reject:", "accept:")) else ctx.rng.choice(PRESENT_MODES))
+    PRESENT["modified"] = None
+    try:
+        out = run_one(dec, fn, A, kw)
+    except Exception as e:                                      # noqa: BLE001   (never a harness crash: report the input)
+        out = ("oracle-crash", f"{type(e).__name__}: {str(e)[:100]}")
+    if out is None and PRESENT["modified"]:
+        out = ("input-modified", PRESENT["modified"])
+    used = PRESENT["mode"]
+    PRESENT["mode"] = "plain"
     ctx.oracle_cases += 1
     nt = A.shape[0] >= 2 and not (A.shape[0] == A.shape[1] and np.array_equal(A, np.identity(A.shape[0])))
     ctx.count(f"oracle:{fn}:{kind}", [fn, kind, D.to_json_matrix(A), kw], nt)
+    ctx.tally("present:" + used)
     if out is not None:
         what, detail = out
         ctx.tally(f"fail:{fn}:{what}")
-        ctx.fail(signature(fn, what, A, kw), f"{fn} on a {A.shape[0]}x{A.shape[1]} '{kind}' input: {what}: {detail}",
-                 dict(fn=fn, kind=kind, kw=kw, A=D.to_json_matrix(A)))
+        ctx.fail(signature(fn, what, A, kw), f"{fn} on a {A.shape[0]}x{A.shape[1]} '{kind}' input ({used} array"
+                 f"{', options ' + str(kw['opts']) if kw.get('opts') else ''}): {what}: {detail}",
+                 dict(fn=fn, kind=kind, kw=kw, present=used, A=D.to_json_matrix(A)))
     return out
 
 
 # ---- rejection of invalid inputs
 
-def check_reject(dec, fn, A):
+def check_reject(dec, fn, A, **opts):
     try:
-        getattr(dec, fn)(A.copy())
+        call(getattr(dec, fn), A, **opts)
     except ValueError:
         return None
     except Exception as e:                                      # noqa: BLE001
         return "wrong-exception", f"{type(e).__name__}: {str(e)[:80]} (ValueError expected)"
     return "accepted-invalid", "invalid input was decomposed instead of rejected"
+
+
+def check_accept(dec, fn, A, **opts):
+    """an input that is valid at the tolerance the caller asks for must not be refused"""
+    try:
+        call(getattr(dec, fn), A, **opts)
+    except Exception as e:                                      # noqa: BLE001
+        return "raised", f"{type(e).__name__}: {str(e)[:80]}"
+    return None
+
+
+def tol_opts(fn, tol):
+    """how each routine takes its validity tolerance"""
+    if fn in ("triangular_compact", "rectangular_compact", "sun_compact"):
+        return dict(rtol=tol, atol=tol)
+    if fn == "graph_embed":
+        return dict(rtol=0.0, atol=tol)
+    return dict(tol=tol)
 
 
 def invalid_unitaries(rs, n):
@@ -740,8 +898,6 @@ def oracle_valid(ctx, dec):
     # graph embeddings
     for it in range(ctx.n(2200, 24000)):
         kind = D.SYMMETRIC_KINDS[it % len(D.SYMMETRIC_KINDS)]
-        if kind == "near_degenerate":      # same takagi call as above; kept out so that the finding has one signature
-            continue
         n = int(rs.integers(1, 8))
         A = D.symmetric_case(rs, n, kind)
         traceless = bool(rs.integers(0, 2))
@@ -759,6 +915,137 @@ def oracle_valid(ctx, dec):
         judge(ctx, dec, "bipartite_graph_embed", kind, A, dict(mp=float(rs.choice([0.1, 0.5, 1.0, 2.5]))))
 
 
+def oracle_options(ctx, dec):
+    """the validity tolerance is an option of every routine: a stricter value must reject what the default accepts, a
+    looser one must accept what the default rejects, and it must reach the inner calls (rectangular_phase_end ->
+    rectangular, rectangular_symmetric -> rectangular_MZ, the recursion of sun_compact); decompositions of valid
+    inputs must not depend on it"""
+    rs = ctx.nprng(23)
+    for _ in range(ctx.n(25, 150)):
+        n = int(rs.integers(3, 8))
+        U = D.haar(rs, n)
+        for m in MESHES:
+            judge(ctx, dec, "reject:" + m, "opt:strict-tol", U * (1 + 1e-12), dict(opts=tol_opts(m, 1e-14)))
+            judge(ctx, dec, "accept:" + m, "opt:loose-tol", U * (1 + 1e-6), dict(opts=tol_opts(m, 1e-4)))
+            kind = str(rs.choice(["haar", "near_identity", "near_perm", "block", "givens"]))
+            V = D.unitary_case(rs, n, kind)
+            judge(ctx, dec, m, "opt:" + kind, V, dict(opts=tol_opts(m, float(rs.choice([1e-9, 1e-10, 1e-13])))))
+        # determinant phase (and leading entries) between the hard-wired 1e-10 of the SU(2) extraction and the caller's
+        # tolerance; 1e-6 is what ops.Interferometer passes
+        phi = 10.0 ** (-rs.uniform(6.5, 9.7))
+        W = D.haar(rs, n)
+        W = W * (np.linalg.det(W) ** (-1 / n)) * np.exp(1j * phi / n)
+        for m in ("sun_compact", "rectangular_compact", "triangular_compact"):
+            judge(ctx, dec, m, "opt:det-phase-below-tol", W, dict(opts=tol_opts(m, 1e-6)))
+            judge(ctx, dec, m, "opt:near-identity-loose-tol", D.unitary_case(rs, n, "near_identity"), dict(opts=tol_opts(m, 1e-6)))
+            judge(ctx, dec, m, "opt:near-perm-loose-tol", D.unitary_case(rs, n, "near_perm"), dict(opts=tol_opts(m, 1e-6)))
+        S = D.symmetric_case(rs, n, "complex")
+        asym = np.triu(np.ones((n, n)), 1)
+        judge(ctx, dec, "reject:takagi", "opt:strict-tol", S + 1e-15 * asym * (1 + n), dict(opts=dict(tol=1e-16)))
+        judge(ctx, dec, "accept:takagi", "opt:loose-tol", S + 1e-9 * asym, dict(opts=dict(tol=1e-6)))
+        judge(ctx, dec, "takagi", "opt:rounding", D.symmetric_case(rs, n, str(rs.choice(["complex", "degenerate_c", "gap_sweep"]))),
+              dict(opts=dict(rounding=int(rs.choice([6, 9, 15])))))
+        V = D.cov_case(rs, min(n, 4), "generic")
+        N2 = V.shape[0]
+        judge(ctx, dec, "reject:williamson", "opt:strict-tol", V + 1e-13 * np.triu(np.ones((N2, N2)), 1), dict(opts=dict(tol=1e-15)))
+        judge(ctx, dec, "accept:williamson", "opt:loose-tol", V + 1e-9 * np.triu(np.ones((N2, N2)), 1), dict(opts=dict(tol=1e-6)))
+        Sm = D.symplectic_case(rs, min(n, 4), "generic")
+        judge(ctx, dec, "reject:bloch_messiah", "opt:strict-tol", Sm * (1 + 1e-12), dict(opts=dict(tol=1e-14)))
+        judge(ctx, dec, "accept:bloch_messiah", "opt:loose-tol", Sm * (1 + 1e-8), dict(opts=dict(tol=1e-4)))
+        judge(ctx, dec, "reject:graph_embed", "opt:strict-tol", S + 1e-10 * asym, dict(opts=tol_opts("graph_embed", 1e-12)))
+
+
+def flat(res):
+    """all numbers of a result, in order"""
+    out = []
+
+    def walk(x):
+        if x is None:
+            out.append(float("nan"))
+        elif isinstance(x, dict):
+            for k in sorted(x, key=str):
+                walk(x[k])
+        elif isinstance(x, (list, tuple)):
+            for y in x:
+                walk(y)
+        else:
+            a = np.asarray(x)
+            if np.iscomplexobj(a):
+                out.extend(a.real.ravel().tolist())
+                out.extend(a.imag.ravel().tolist())
+            else:
+                out.extend(a.astype(float).ravel().tolist())
+    walk(res)
+    return np.array(out)
+
+
+class ReusedBuffer:
+    """stands in for the module: the routine under test is always handed the SAME array object (whose content was
+    replaced in place), so that any memory keyed on the object's identity shows"""
+
+    def __init__(self, dec, fn, buf):
+        self._dec, self._fn, self._buf = dec, fn, buf
+
+    def __getattr__(self, name):
+        real = getattr(self._dec, name)
+        if name != self._fn:
+            return real
+        return lambda X, *a, **k: real(self._buf, *a, **k)
+
+
+def history_cases(rs):
+    n = int(rs.integers(2, 7))
+    k = int(rs.integers(1, 4))
+    kind = str(rs.choice(["haar", "block", "perm_phase", "near_identity", "givens"]))
+    yield from ((m, lambda r, nn=max(n, 3) if m == "sun_compact" else n, kd=kind: D.unitary_case(r, nn, kd), {}) for m in MESHES)
+    yield "takagi", lambda r: D.symmetric_case(r, n, str(r.choice(["complex", "real", "degenerate_c"]))), {}
+    yield "williamson", lambda r: D.cov_case(r, k, str(r.choice(["generic", "degenerate"]))), {}
+    yield "bloch_messiah", lambda r: D.symplectic_case(r, k, str(r.choice(["generic", "partial", "passive", "pairs"]))), {}
+    yield "graph_embed", lambda r: D.symmetric_case(r, n, "complex"), dict(mp=0.5, traceless=False)
+    yield "bipartite_graph_embed", lambda r: bipartite_case(r, n, "complex"), dict(mp=1.0)
+
+
+def oracle_history(ctx, dec):
+    """results must not depend on earlier calls: the same input twice with another call in between gives the same
+    numbers; an array object whose content is replaced in place is decomposed like a fresh array with that content"""
+    rs = ctx.nprng(29)
+    for _ in range(ctx.n(20, 120)):
+        for fn, gen, kw in history_cases(rs):
+            A, B = gen(rs), gen(rs)
+            f = getattr(dec, fn)
+            args = dict(mean_photon_per_mode=kw["mp"]) if "mp" in kw else {}
+            if "traceless" in kw:
+                args["make_traceless"] = kw["traceless"]
+            ctx.oracle_cases += 1
+            ctx.count(f"oracle:history:{fn}", ["history", fn, D.to_json_matrix(A), D.to_json_matrix(B)], True)
+            try:
+                r1 = flat(f(A.copy(), **args))
+                f(B.copy(), **args)
+                r2 = flat(f(A.copy(), **args))
+            except Exception as e:                              # noqa: BLE001
+                ctx.fail(f"{fn}:raised", f"{fn} raised {type(e).__name__}: {str(e)[:80]} in a repeated call",
+                         dict(fn=fn, kind="history", kw=kw, A=D.to_json_matrix(A)))
+                continue
+            if r1.shape != r2.shape or not np.allclose(r1, r2, rtol=0, atol=1e-12, equal_nan=True):
+                ctx.fail(f"{fn}:history-dependent", f"{fn} returns different factors for the same {A.shape[0]}x{A.shape[1]} input "
+                         "after an unrelated call in between", dict(fn="history:" + fn, kind="repeat", kw=kw,
+                                                                     A=D.to_json_matrix(A), B=D.to_json_matrix(B)))
+                continue
+            if A.shape == B.shape:
+                buf = np.array(A, dtype=np.result_type(A, B))
+                try:
+                    f(buf, **args)
+                except Exception:                               # noqa: BLE001
+                    pass
+                buf[...] = B
+                PRESENT["mode"], PRESENT["modified"] = "plain", None
+                out = run_one(ReusedBuffer(dec, fn, buf), fn, np.array(B, dtype=buf.dtype), kw)
+                if out is not None:
+                    ctx.fail(f"{fn}:stale-after-in-place-update", f"{fn} called on an array whose content was replaced in place "
+                             f"does not decompose the new content: {out[0]}: {out[1]}",
+                             dict(fn="history:" + fn, kind="reuse", kw=kw, A=D.to_json_matrix(A), B=D.to_json_matrix(B)))
+
+
 def corpus(ctx, dec):
     import json
     from lib import core
@@ -772,18 +1059,20 @@ def run(ctx, sf):
     import strawberryfields.decompositions as dec
     corpus(ctx, dec)
     reqs, pend = [], []
-    corr_blocks(ctx, dec, reqs, pend)
-    corr_null(ctx, dec, reqs, pend)
-    try:
-        corr_schedules(ctx, dec, reqs, pend)
-        corr_exact(ctx, dec, reqs, pend)
-    except Exception as e:                                      # noqa: BLE001
-        # the real code crashed on a valid generic input: the oracle below reports it with a replayable input
-        ctx.notes.append(f"schedule correspondence skipped: real code raised {type(e).__name__}: {str(e)[:80]}")
-        ctx.disagree("schedule correspondence (real code raised)", dict(error=str(e)[:200]), None, None)
+    for part in (corr_blocks, corr_null, corr_schedules, corr_exact, corr_absorb, corr_takagi_order, corr_bmperm, corr_su2):
+        try:
+            part(ctx, dec, reqs, pend)
+        except Exception as e:                                  # noqa: BLE001
+            # the real code crashed inside a correspondence driver: the tie is broken; the oracles below look for an input
+            ctx.notes.append(f"{part.__name__} stopped: real code raised {type(e).__name__}: {str(e)[:80]}")
+            ctx.disagree(f"{part.__name__} (real code raised {type(e).__name__})", dict(error=str(e)[:200]), None, None)
+            n_ok = min(len(reqs), len(pend))
+            del reqs[n_ok:], pend[n_ok:]
     compare(ctx, reqs, pend)
     oracle_valid(ctx, dec)
     oracle_reject(ctx, dec)
+    oracle_options(ctx, dec)
+    oracle_history(ctx, dec)
 
 
 def search(ctx, sf):
@@ -792,7 +1081,35 @@ def search(ctx, sf):
 
 def replay(ctx, rp):
     import strawberryfields.decompositions as dec
-    out = run_one(dec, rp["fn"], D.from_json_matrix(rp["A"]), rp.get("kw") or {})
+    fn, kw = rp["fn"], rp.get("kw") or {}
+    A = D.from_json_matrix(rp["A"])
+    if fn.startswith("history:"):
+        fn = fn[8:]
+        B = D.from_json_matrix(rp["B"])
+        f = getattr(dec, fn)
+        args = dict(mean_photon_per_mode=kw["mp"]) if "mp" in kw else {}
+        if "traceless" in kw:
+            args["make_traceless"] = kw["traceless"]
+        if rp.get("kind") == "repeat":
+            r1 = flat(f(A.copy(), **args))
+            f(B.copy(), **args)
+            r2 = flat(f(A.copy(), **args))
+            bad = r1.shape != r2.shape or not np.allclose(r1, r2, rtol=0, atol=1e-12, equal_nan=True)
+            print("   ", fn, "repeat differs" if bad else "repeat equal")
+            return bad
+        buf = np.array(A, dtype=np.result_type(A, B))
+        try:
+            f(buf, **args)
+        except Exception:                                       # noqa: BLE001
+            pass
+        buf[...] = B
+        out = run_one(ReusedBuffer(dec, fn, buf), fn, np.array(B, dtype=buf.dtype), kw)
+    else:
+        PRESENT["mode"], PRESENT["modified"] = rp.get("present", "plain"), None
+        out = run_one(dec, fn, A, kw)
+        if out is None and PRESENT["modified"]:
+            out = ("input-modified", PRESENT["modified"])
+        PRESENT["mode"] = "plain"
     if out:
-        print("   ", rp["fn"], out[0], out[1])
+        print("   ", fn, out[0], out[1])
     return out is not None
